@@ -39,6 +39,7 @@ Apply(w, e, kb) ==
      [] e.op = "new"  -> NewOut(w)
      [] e.op = "dict" -> DictOut(w, e.it)
      [] e.op = "kv"   -> KvOut(w, e.p, e.x = "rev")
+     [] e.op \in {"fset", "fdict"} -> FaultOut(w)
      [] OTHER         -> JoinOut(w, e.p, e.j)
 InDom(w, e) ==
    CASE e.op = "set"  -> /\ e.p \in DOMAIN w.ps /\ KeyOK(w.ps[e.p], e.key)
@@ -46,6 +47,7 @@ InDom(w, e) ==
                          /\ (e.m.k = "self" => (Tgt(w.ps[e.p], e.key) # 0 /\ HasC(w.ps[e.p][Tgt(w.ps[e.p], e.key)].c)))
      [] e.op = "cmt"  -> /\ e.p \in DOMAIN w.ps /\ e.j \in DOMAIN w.ps[e.p] /\ (e.x = "elem" => HeldHas(w.held, e.m.h))
      [] e.op = "del"  -> e.p \in DOMAIN w.ps /\ KeyOK(w.ps[e.p], e.key)
+     [] e.op = "fset" -> e.p \in DOMAIN w.ps
      [] e.op = "move" -> e.p \in DOMAIN w.ps /\ Len(Occ(w.ps[e.p], e.n)) <= 1
      [] e.op \in {"sort", "kv"} -> e.p \in DOMAIN w.ps
      [] e.op = "join" -> e.p \in DOMAIN w.ps /\ e.j \in DOMAIN w.ps /\ e.p # e.j
